@@ -6,6 +6,7 @@ import (
 	"context"
 	"expvar"
 	"fmt"
+	"net"
 	"os"
 	"path/filepath"
 	goruntime "runtime"
@@ -102,6 +103,7 @@ func c19Run(r *runCtx, id string, f []string) {
 		}
 	}
 	var logs []string
+	useGlob := false
 	total := 0
 	for i, sp := range specs {
 		var sb strings.Builder
@@ -112,9 +114,21 @@ func c19Run(r *runCtx, id string, f []string) {
 			}
 		}
 		p := filepath.Join(dir, fmt.Sprintf("log%d", i))
-		_ = os.WriteFile(p, []byte(sb.String()), 0o644)
+		if sp[1] == 2 {
+			// not a log at all: a unix socket that the glob matches but that cannot be tailed as a file
+			if l, lerr := net.Listen("unix", p); lerr == nil {
+				defer l.Close()
+			}
+			useGlob = true
+		} else {
+			_ = os.WriteFile(p, []byte(sb.String()), 0o644)
+		}
 		logs = append(logs, p)
 		total += sp[0]
+	}
+	patterns := logs
+	if useGlob {
+		patterns = []string{filepath.Join(dir, "log*")}
 	}
 	old := goruntime.GOMAXPROCS(procs)
 	defer goruntime.GOMAXPROCS(old)
@@ -122,7 +136,7 @@ func c19Run(r *runCtx, id string, f []string) {
 	store := metrics.NewStore()
 	ctx, cancel := context.WithCancel(context.Background())
 	defer cancel()
-	opts := []mtail.Option{mtail.ProgramPath(progDir), mtail.LogPathPatterns(logs...), mtail.OneShot}
+	opts := []mtail.Option{mtail.ProgramPath(progDir), mtail.LogPathPatterns(patterns...), mtail.OneShot}
 	var m *mtail.Server
 	var runErr error
 	done := make(chan struct{})
@@ -247,7 +261,8 @@ func init() {
 	props["C19"] = &propImpl{
 		gen: func(g *genCtx) {
 			progSets := []string{"w", "w,w", "w,g,w", "g", "w,s", "s,g,w"}
-			fileSets := []string{"3/1", "3/0", "0/1", "5/1,4/0", "0/1,2/1,0/0", "7/0,1/1,6/1", "1/0", "200/1,150/0"}
+			// (n/2 stands for something the pattern matches that is no log: a unix socket)
+			fileSets := []string{"3/1", "3/0", "0/1", "5/1,4/0", "0/1,2/1,0/0", "7/0,1/1,6/1", "1/0", "200/1,150/0", "3/1,0/2,4/0,2/1", "0/2,5/1"}
 			for _, ps := range progSets {
 				for _, fs := range fileSets {
 					g.emit("os", strconv.Itoa([]int{1, 2, 16}[g.n%3]), ps, fs)
